@@ -1,9 +1,8 @@
 /-
   C03 — helper lemmas, part 2: the declarations the model inserts are the spec's occurrences,
-  in the same order (under the hypotheses of Partial.lean).
+  in the same order.
 -/
 import WR.C03.Lemmas
-import WR.C03.Partial
 namespace WR.C03
 open Spec
 
@@ -24,73 +23,35 @@ theorem expand_nil : expand [] = [] := rfl
 theorem expand_empty (sels : List Sel) : expand [(sels, [])] = [] := by
   simp [expand]
 
-theorem nestSelectorsFrom_amp (parent : List Sel) (h : Bool) (first : Bool) (ns : List Sel)
-    (hall : ns.all (·.amp) = true) : Model.nestSelectorsFrom parent h first ns = nestSels parent ns := by
-  induction ns generalizing first with
-  | nil => rfl
-  | cons s rest ih =>
-    simp only [List.all_cons, Bool.and_eq_true] at hall
-    simp [Model.nestSelectorsFrom, nestSels, hall.1]
-    have := ih false hall.2
-    simpa [nestSels] using this
+theorem nestSelectors_eq (parent ns : List Sel) : Model.nestSelectors parent ns = nestSels parent ns := by
+  simp [Model.nestSelectors, nestSels]
 
-theorem nestSelectors_plain (parent ns : List Sel) (h : plainSels ns = true) :
-    Model.nestSelectors parent ns = nestSels parent ns := by
-  unfold plainSels at h
-  simp only [Bool.or_eq_true, decide_eq_true_eq] at h
-  rcases h with h | h
-  · exact nestSelectorsFrom_amp parent _ true ns h
-  · match ns, h with
-    | [], _ => rfl
-    | [s], _ =>
-      cases hs : s.amp <;> simp [Model.nestSelectors, Model.nestSelectorsFrom, nestSels, hs]
-
-theorem flatten_ok (sels : List Sel) (body : List Body) :
-    ∀ run, okBody body = true → (run = [] ∨ body.all isDecl = true) →
-      expand (Spec.flatBody sels run body) =
-        expand ((Model.flattenBody sels body).1 ++ [(sels, run ++ (Model.flattenBody sels body).2)]) := by
+/-- the code's flattening and the spec's differ only by empty `(selectors, [])` entries -/
+theorem flatten_ok (sels : List Sel) (run : List Decl) (body : List Body) :
+    expand (Model.flattenBody sels run body) = expand (Spec.flatBody sels run body) := by
   apply Model.flattenBody.induct
-    (motive_1 := fun sels b => ∀ run, okItem b = true → (run = [] ∨ isDecl b = true) →
-      expand (Spec.flatItem sels run b).1 = expand (Model.flattenItem sels b).1 ∧
-      (Spec.flatItem sels run b).2 = run ++ (Model.flattenItem sels b).2)
-    (motive_2 := fun sels body => ∀ run, okBody body = true → (run = [] ∨ body.all isDecl = true) →
-      expand (Spec.flatBody sels run body) =
-        expand ((Model.flattenBody sels body).1 ++ [(sels, run ++ (Model.flattenBody sels body).2)]))
-  · intro sels d run _ _
+    (motive_1 := fun sels run b =>
+      expand (Model.flattenItem sels run b).1 = expand (Spec.flatItem sels run b).1 ∧
+      (Model.flattenItem sels run b).2 = (Spec.flatItem sels run b).2)
+    (motive_2 := fun sels run body =>
+      expand (Model.flattenBody sels run body) = expand (Spec.flatBody sels run body))
+  · intro sels run d
     simp [Spec.flatItem, Model.flattenItem]
-  · intro sels ns nb ih run hok hrun
-    simp only [okItem, Bool.and_eq_true] at hok
-    have hrun' : run = [] := by
-      rcases hrun with h | h
-      · exact h
-      · simp [isDecl] at h
-    subst hrun'
-    have hsel := nestSelectors_plain sels ns hok.1
-    have := ih [] (by simpa [hsel] using hok.2) (Or.inl rfl)
-    simp only [Spec.flatItem, Model.flattenItem, hsel, List.nil_append, and_true]
-    rw [expand_cons, expand_empty, List.nil_append]
-    simpa [hsel] using this
-  · intro sels run _ _
+  · intro sels run ns nb ih
+    rw [nestSelectors_eq] at ih
+    simp only [Spec.flatItem, Model.flattenItem, nestSelectors_eq, and_true]
+    rw [expand_append, ih, expand_cons (sels, run)]
+    cases run with
+    | nil => simp [expand_empty, expand_nil]
+    | cons d ds => simp
+  · intro sels run
     simp [Spec.flatBody, Model.flattenBody]
-  · intro sels b rest ihb ihrest run hok hrun
-    simp only [okBody, Bool.and_eq_true, Bool.or_eq_true, Bool.not_eq_true'] at hok
-    obtain ⟨⟨hokb, hokrest⟩, hshape⟩ := hok
-    have hrunb : run = [] ∨ isDecl b = true := by
-      rcases hrun with h | h
-      · exact Or.inl h
-      · simp only [List.all_cons, Bool.and_eq_true] at h; exact Or.inr h.1
-    obtain ⟨h1, h2⟩ := ihb run hokb hrunb
-    have hrunrest : (Spec.flatItem sels run b).2 = [] ∨ rest.all isDecl = true := by
-      rcases hshape with h | h
-      · left
-        cases b with
-        | decl d => simp [isDecl] at h
-        | nested ns nb => simp [Spec.flatItem]
-      · exact Or.inr h
-    have h3 := ihrest (Spec.flatItem sels run b).2 hokrest hrunrest
+  · intro sels run b rest x ihb ihrest
+    obtain ⟨h1, h2⟩ := ihb
     simp only [Spec.flatBody, Model.flattenBody]
-    rw [expand_append, h3, h1, h2]
-    simp [expand_append, List.append_assoc]
+    rw [expand_append, expand_append, h1]
+    rw [h2] at ihrest
+    rw [h2, ihrest]
 
 theorem evaluateMediaQuery_eq (m : List Medium) (dev : Medium) :
     Model.evaluateMediaQuery m dev = mediaOk m dev := by
@@ -104,72 +65,66 @@ theorem evaluateMediaQuery_eq (m : List Medium) (dev : Medium) :
       simp only [h', Bool.false_eq_true, if_false, Bool.false_or]
       simpa [mediaOk] using ih
 
-theorem rule_ok (sels : List Sel) (body : List Body) (h : okBody body = true) :
-    expand (Model.preprocessDeclarationsPrelude sels body) = expand (Spec.flatBody sels [] body) := by
-  have := flatten_ok sels body [] h (Or.inl rfl)
-  simpa [Model.preprocessDeclarationsPrelude] using this.symm
+theorem rule_ok (sels : List Sel) (body : List Body) :
+    expand (Model.preprocessDeclarationsPrelude sels body) = expand (Spec.flatBody sels [] body) :=
+  flatten_ok sels [] body
 
 theorem items_ok (dev : Medium) (ign : Bool) (items : List Item) :
-    okItems items = true →
-      expand (Model.preprocessItems dev ign items) = expand (Spec.itemsRules dev (!ign) items) := by
+    expand (Model.preprocessItems dev ign items) = expand (Spec.itemsRules dev (!ign) items) := by
   apply Model.preprocessItems.induct dev
-    (motive_1 := fun ign it => okSheetItem it = true →
+    (motive_1 := fun ign it =>
       expand (Model.preprocessItem dev ign it).1 = expand (Spec.itemRules dev (!ign) it) ∧
       (Model.preprocessItem dev ign it).2 = !((!ign) && keepsLeading it))
-    (motive_2 := fun ign items => okItems items = true →
+    (motive_2 := fun ign items =>
       expand (Model.preprocessItems dev ign items) = expand (Spec.itemsRules dev (!ign) items))
-  · intro ign sels body hok
-    simp only [okSheetItem] at hok
-    simp [Model.preprocessItem, Spec.itemRules, keepsLeading, rule_ok sels body hok]
-  · intro m sub _
+  · intro ign sels body
+    simp [Model.preprocessItem, Spec.itemRules, keepsLeading, rule_ok sels body]
+  · intro m sub
     simp [Model.preprocessItem, Spec.itemRules, keepsLeading, expand_nil]
-  · intro ign m sub hign hm _
+  · intro ign m sub hign hm
     have hign' : ign = false := by simpa using hign
     subst hign'
     rw [evaluateMediaQuery_eq] at hm
     have hm' : mediaOk m dev = false := by simpa using hm
     simp [Model.preprocessItem, Spec.itemRules, keepsLeading, expand_nil, evaluateMediaQuery_eq, hm']
-  · intro ign m sub hign hm ih hok
+  · intro ign m sub hign hm ih
     have hign' : ign = false := by simpa using hign
     subst hign'
     rw [evaluateMediaQuery_eq] at hm
     have hm' : mediaOk m dev = true := by simpa using hm
-    simp only [okSheetItem] at hok
-    have := ih hok
     simp [Model.preprocessItem, Spec.itemRules, keepsLeading, evaluateMediaQuery_eq, hm']
-    simpa using this
-  · intro ign m sub hm _
+    simpa using ih
+  · intro ign m sub hm
     rw [evaluateMediaQuery_eq] at hm
     have hm' : mediaOk m dev = false := by simpa using hm
     simp [Model.preprocessItem, Spec.itemRules, keepsLeading, expand_nil, evaluateMediaQuery_eq, hm']
-  · intro ign m sub hm ih hok
+  · intro ign m sub hm ih
     rw [evaluateMediaQuery_eq] at hm
     have hm' : mediaOk m dev = true := by simpa using hm
-    simp only [okSheetItem] at hok
-    have := ih hok
     simp [Model.preprocessItem, Spec.itemRules, keepsLeading, evaluateMediaQuery_eq, hm']
-    simpa using this
-  · intro ign _
+    simpa using ih
+  · intro ign
     simp [Model.preprocessItem, Spec.itemRules, keepsLeading, expand_nil]
-  · intro ign _
+  · intro ign
     simp [Model.preprocessItem, Spec.itemRules, keepsLeading, expand_nil]
-  · intro ign _
+  · intro ign
     simp [Model.preprocessItems, Spec.itemsRules]
-  · intro ign it rest r ih1 ih2 hok
-    simp only [okItems, Bool.and_eq_true] at hok
-    obtain ⟨h1, h2⟩ := ih1 hok.1
-    have h3 := ih2 hok.2
+  · intro ign it rest r ih1 ih2
+    obtain ⟨h1, h2⟩ := ih1
     simp only [Model.preprocessItems, Spec.itemsRules, expand_append, h1]
-    rw [h2] at h3 ⊢
-    simpa using h3
+    rw [h2] at ih2 ⊢
+    simpa using ih2
 
-theorem newCSS_ok (dev : Medium) (items : List Item) (h : okItems items = true) :
+theorem newCSS_ok (dev : Medium) (items : List Item) :
     expand (Model.newCSS dev items) = expand (Spec.sheetRules dev items) := by
-  simpa [Model.newCSS, Spec.sheetRules] using items_ok dev false items h
+  simpa [Model.newCSS, Spec.sheetRules] using items_ok dev false items
 
 /-- the weight the code gives to an occurrence -/
 def toW (o : Occ) : Model.WValue :=
   ⟨⟨Model.declarationPrecedence o.origin o.imp,
+    (match o.kind with
+    | .styleAttr => true
+    | _ => false),
     match o.kind with
     | .rule => o.spec
     | .styleAttr => (1, 0, 0)
@@ -179,7 +134,7 @@ theorem toW_val (o : Occ) : (toW o).val = o.val := rfl
 
 theorem sheetInsertions_eq (sh : Model.Sheet) :
     Model.sheetInsertions sh = (expand sh.matcher).map fun p =>
-      ⟨⟨Model.declarationPrecedence sh.origin p.2.imp,
+      ⟨⟨Model.declarationPrecedence sh.origin p.2.imp, false,
         match sh.specificity with
         | some s => s
         | none => p.1⟩, p.2.val⟩ := by
@@ -204,41 +159,35 @@ theorem sheet_hint (m rules : List (List Sel × List Decl)) (o : Origin) (h : ex
   rfl
 
 /-- **the model inserts exactly the spec's occurrences, in the spec's order** -/
-theorem insertions_eq (doc : Doc) (h : NestedSafe doc) :
-    Model.insertions doc = (Spec.occs doc).map toW := by
-  obtain ⟨hua, hph, hau, hus⟩ := h
-  have e1 := sheet_rule _ _ Origin.ua (newCSS_ok doc.dev doc.ua hua)
-  have e2 := sheet_hint _ _ Origin.author (newCSS_ok doc.dev doc.ph hph)
-  have e3 : ∀ l : List AuthorSheet, (∀ a ∈ l, okItems a.items = true) →
+theorem insertions_eq (doc : Doc) : Model.insertions doc = (Spec.occs doc).map toW := by
+  have e1 := sheet_rule _ _ Origin.ua (newCSS_ok doc.dev doc.ua)
+  have e2 := sheet_hint _ _ Origin.author (newCSS_ok doc.dev doc.ph)
+  have e3 : ∀ l : List AuthorSheet,
       (((l.filter fun a => Model.evaluateMediaQuery a.media doc.dev).map (fun a => Model.newCSS doc.dev a.items)).map
         (fun m => (⟨m, .author, none⟩ : Model.Sheet))).flatMap Model.sheetInsertions
       = ((l.filter fun a => mediaOk a.media doc.dev).flatMap
           (fun a => ruleOccs .author .rule (sheetRules doc.dev a.items))).map toW := by
-    intro l hl
+    intro l
     induction l with
     | nil => rfl
     | cons a rest ih =>
-      have ha := hl a (by simp)
-      have hrest := ih (fun x hx => hl x (by simp [hx]))
-      simp only [List.filter_cons, evaluateMediaQuery_eq] at hrest ⊢
+      simp only [List.filter_cons, evaluateMediaQuery_eq] at ih ⊢
       by_cases hm : mediaOk a.media doc.dev = true
-      · simp only [hm, if_true, List.map_cons, List.flatMap_cons, List.map_append, hrest]
-        rw [sheet_rule _ _ Origin.author (newCSS_ok doc.dev a.items ha)]
+      · simp only [hm, if_true, List.map_cons, List.flatMap_cons, List.map_append, ih]
+        rw [sheet_rule _ _ Origin.author (newCSS_ok doc.dev a.items)]
       · have hm' : mediaOk a.media doc.dev = false := by simpa using hm
-        simp only [hm', Bool.false_eq_true, if_false, hrest]
-  have e4 : ∀ l : List (List Item), (∀ u ∈ l, okItems u = true) →
+        simp only [hm', Bool.false_eq_true, if_false, ih]
+  have e4 : ∀ l : List (List Item),
       (l.map (fun u => (⟨Model.newCSS doc.dev u, .user, none⟩ : Model.Sheet))).flatMap Model.sheetInsertions
       = (l.flatMap (fun u => ruleOccs .user .rule (sheetRules doc.dev u))).map toW := by
-    intro l hl
+    intro l
     induction l with
     | nil => rfl
     | cons u rest ih =>
-      have hu := hl u (by simp)
-      have hrest := ih (fun x hx => hl x (by simp [hx]))
-      simp only [List.map_cons, List.flatMap_cons, List.map_append, hrest]
-      rw [sheet_rule _ _ Origin.user (newCSS_ok doc.dev u hu)]
-  have e3' := e3 doc.author hau
-  have e4' := e4 doc.user hus
+      simp only [List.map_cons, List.flatMap_cons, List.map_append, ih]
+      rw [sheet_rule _ _ Origin.user (newCSS_ok doc.dev u)]
+  have e3' := e3 doc.author
+  have e4' := e4 doc.user
   unfold Model.insertions Model.sheets Model.attrInsertions Model.findStylesheets Spec.occs
   simp only [List.flatMap_append, List.map_append]
   rw [e3', e4']
